@@ -334,6 +334,90 @@ func edgeHistory(r *hk.Run) {
 	}
 }
 
+// wideDates: a fixed world whose permanodes have creation times all over the range of RFC 3339 –
+// from a dateCreated attribute, from the time of the content file, from claims dated centuries ago –
+// asked in every order with every limit: order and limit prefixes are by the time itself, whatever
+// narrower representation a sort might be tempted to use.
+func wideDates(r *hk.Run) {
+	c := newCase(r, "fixed wide dates")
+	b := c.b
+	date := int64(1400000000)
+	for i, t := range []int64{ymd(1623, 11, 8), ymd(2300, 1, 1), ymd(1215, 6, 15), 1350000000, -9223372037, -9223372036, 9223372036, 9223372037, -1, 1, MinTime, MaxTime} {
+		pn := b.PN(fmt.Sprintf("wide%d", i))
+		date++
+		b.Claim(pn, "add", "tag", "x", date)
+		date++
+		b.Claim(pn, "set", "dateCreated", rfc3339(t), date)
+	}
+	// a time from the content file, and a claim dated in 1500 as the only source of a time
+	pf := b.PN("widefile")
+	f := b.File("a.txt", b.Bytes("hello world"), ymd(1400, 3, 3), "text/plain")
+	date++
+	b.Claim(pf, "set", "camliContent", f, date)
+	b.Claim(pf, "add", "tag", "x", date+1)
+	po := b.PN("wideold")
+	b.Claim(po, "add", "tag", "x", ymd(1500, 7, 1))
+	b.SyncCTimes()
+	b.Raw("times")
+	tagged := &Cons{Pn: &PermC{Attr: "tag", Value: "x"}}
+	recent := &Cons{Pn: &PermC{Time: &TimeC{After: ymd(1600, 1, 1), Before: ymd(2400, 1, 1)}}}
+	old := &Cons{Pn: &PermC{ModTime: &TimeC{Before: ymd(1600, 1, 1)}}}
+	for _, cons := range []*Cons{{Camli: "permanode"}, tagged, recent, old} {
+		for _, s := range allSorts {
+			for _, l := range []int{1, 2, 3, 5, -1} {
+				r.Hit("fixed-wide-dates")
+				c.query(s, l, cons, "nonconstant")
+			}
+		}
+	}
+	if len(b.Bad) > 0 {
+		r.Fail("world-build", strings.Join(b.Bad, "; "), "ok", "", r.CaseOps())
+	}
+}
+
+// sharedContent: a fixed world in which several file blobs have the same contents (one wholeRef,
+// different names and times), some of them the camliContent of permanodes: pinning the wholeRef –
+// at top level, under and / or, nested in ValueInSet or Contains – must find all of them under every
+// sort.
+func sharedContent(r *hk.Run) {
+	c := newCase(r, "fixed shared contents")
+	b := c.b
+	whole := b.Bytes("hello world")
+	f1 := b.File("a.txt", whole, 1300000000, "text/plain")
+	f2 := b.File("copy-of-a.txt", whole, 1300000000, "text/plain")
+	f3 := b.File("a.txt", whole, 1300000500, "text/plain")
+	other := b.File("b.html", b.Bytes("<html></html>"), 1300000000, "text/html")
+	b.Dir("top", []string{f1, other})
+	b.Dir("sub", []string{f2, f3})
+	date := int64(1400000000)
+	for i, f := range []string{f1, f2, f3, other} {
+		pn := b.PN(fmt.Sprintf("shared%d", i))
+		date++
+		b.Claim(pn, "set", "camliContent", f, date)
+	}
+	b.SyncCTimes()
+	byWhole := &Cons{File: &FileC{WholeRef: whole}}
+	cs := []*Cons{byWhole,
+		{Op: "and", A: byWhole, B: &Cons{File: &FileC{Name: &StrC{HasSuffix: ".txt"}}}},
+		{Op: "and", A: &Cons{Camli: "file"}, B: byWhole},
+		{Op: "or", A: byWhole, B: byWhole},
+		{Camli: "file", File: &FileC{WholeRef: whole, Name: &StrC{Equals: "a.txt"}}},
+		{Pn: &PermC{Attr: "camliContent", InSet: byWhole}},
+		{Dir: &DirC{Contains: byWhole}},
+		{Op: "not", A: byWhole}}
+	for _, cons := range cs {
+		for _, s := range allSorts {
+			for _, l := range []int{1, 2, -1} {
+				r.Hit("fixed-shared-contents")
+				c.query(s, l, cons, "nonconstant")
+			}
+		}
+	}
+	if len(b.Bad) > 0 {
+		r.Fail("world-build", strings.Join(b.Bad, "; "), "ok", "", r.CaseOps())
+	}
+}
+
 func malformed(r *hk.Run) {
 	c := newCase(r, "malformed ops")
 	b := c.b
@@ -369,6 +453,8 @@ func Run(r *hk.Run) {
 	lateContent(r)
 	typeChurn(r)
 	edgeHistory(r)
+	wideDates(r)
+	sharedContent(r)
 	malformed(r)
 	worlds, consPer, maxDepth := 500, 6, 3
 	if r.Thorough() {
